@@ -332,6 +332,7 @@ class ExprMixin:
         if isinstance(container, SSet):
             return z3.Select(container.t, self.to_val(x))
         if isinstance(container, SDict):
+            self.dict_hint(container, self.to_val(x))
             return z3.Select(container.has, self.to_val(x))
         if isinstance(container, STuple):
             cs = [self.equal(fr, x, e, node) for e in container.elems]
@@ -609,6 +610,7 @@ class ExprMixin:
             return SDyn(f(base.t, self.to_val(key)))
         if isinstance(base, SDict):
             k = self.to_val(key)
+            self.dict_hint(base, k)
             if not self.specmode and self.branch(z3.Not(z3.Select(base.has, k))):
                 raise PyRaise('KeyError', ln, 'key not in dict')
             return SDyn(z3.Select(base.get, k))
@@ -690,6 +692,8 @@ class ExprMixin:
                 return SFunc(val, owner.mod, f'{owner.qual}.{name}', cls=owner)
             return val
         if isinstance(base, SModule):
+            if f'{base.name}.{name}' in (getattr(self.d.contract, 'externals', None) or {}):
+                return SBuiltin(f'{base.name}.{name}')        # declared external: not inlined even when its source is in reach
             m = modinfo.load(base.name)
             if m is not None:
                 v = self.mod_lookup(m, name)
